@@ -31,7 +31,13 @@ def det_pass(genmode, seed, count, label, lines_fn=None):
                                                            "multi_file": sum(1 for l in reqs if l.count('.ts"') > 1)})
         # `prog` requests are answered by the model with acceptance bits: for C10 only the outcome class is tied
         def view(r):
-            return "(outcome ok)" if r.startswith("(bits") else r
+            if r.startswith("(pair "):      # split requests: the model answers (pair <single> <multi>)
+                try:
+                    second = vcheck.sx_parse(r)[2]
+                    r = "(bits" if second[0] == "bits" else "(outcome diags)" if second[0] == "diags" else vcheck.sx_show(second)
+                except Exception:
+                    pass
+            return "(outcome ok)" if r.startswith("(bits") else "(outcome diags)" if r == "(diags)" else r
         return vcheck.corr_pass(chk, "det", reqs, label, engine=lambda c, ls: impl, oracle_filter=vcheck.tag_filter(TAGS), view=view, nontrivial=lambda r, i: True)
     return p
 
